@@ -5,9 +5,12 @@ import (
 	"encoding/hex"
 	"encoding/json"
 	"fmt"
+	"github.com/xelaj/mtproto/internal/encoding/tl"
+	"github.com/xelaj/mtproto/zverif/core"
 	"math/big"
 	mrand "math/rand"
 	"strings"
+	"sync"
 	"time"
 
 	"github.com/xelaj/mtproto/telegram"
@@ -40,7 +43,26 @@ func explainedExponentP(draws []rngDraw, g int64, pub []byte, p *big.Int) (bool,
 	want := new(big.Int).SetBytes(pub)
 	pm1 := new(big.Int).Sub(p, big.NewInt(1))
 	half := new(big.Int).Rsh(pm1, 1)
+	// a value read in several pieces (a source that returns short reads) is a run of consecutive chunks: windows of the
+	// served byte stream that start where a chunk starts
+	all := append([]rngDraw{}, draws...)
+	var stream []byte
+	var starts []int
 	for _, d := range draws {
+		starts = append(starts, len(stream))
+		stream = append(stream, d.Bytes...)
+	}
+	for i, o := range starts {
+		if len(draws[i].Bytes) >= 248 {
+			continue // whole values are candidates already
+		}
+		for _, n := range []int{256, 255, 248} {
+			if o+n <= len(stream) {
+				all = append(all, rngDraw{Size: n, Bytes: stream[o : o+n], Caller: draws[i].Caller + "+"})
+			}
+		}
+	}
+	for _, d := range all {
 		if len(d.Bytes) < 32 {
 			continue
 		}
@@ -80,6 +102,85 @@ func c19(c *wk.Ctx) {
 			c.Begin(idx, fmt.Sprintf("srp %d", k))
 			t.Reset()
 			c19srp(c, idx, c.Rand(idx), t)
+		}
+		idx++
+	}
+	// a source that hands out its bytes in small pieces (an io.Reader may return fewer bytes than asked for)
+	for k := 0; k < c.Pick(4, 16); k++ {
+		if c.Mine(idx) {
+			chunk := []int{1, 7, 16, 100}[k%4]
+			c.Begin(idx, fmt.Sprintf("short reads of %d bytes", chunk))
+			t.Reset()
+			t.ShortReads(chunk)
+			if k%2 == 0 {
+				c19exchange(c, idx, c.Rand(idx), t, false)
+			} else {
+				c19srp(c, idx, c.Rand(idx), t)
+			}
+			t.Reset()
+			c.Count("short_read_cases", 1)
+		}
+		idx++
+	}
+	// several key exchanges at once (an application with several accounts or data centres)
+	for k := 0; k < c.Pick(3, 20); k++ {
+		if c.Mine(idx) {
+			c.Begin(idx, fmt.Sprintf("concurrent key exchanges %d", k))
+			t.Reset()
+			c19concurrent(c, idx, c.Rand(idx), t, 3+k%4)
+			t.Reset()
+		}
+		idx++
+	}
+	// the nonce primitives themselves, from several goroutines at once (what concurrent key exchanges do, without
+	// the milliseconds of arithmetic between the draws): every value is a chunk the source served, none repeats
+	for k := 0; k < c.Pick(2, 12); k++ {
+		if c.Mine(idx) {
+			c.Begin(idx, fmt.Sprintf("concurrent nonce draws %d", k))
+			t.Reset()
+			vals := make([][][]byte, 8)
+			res := concurrently(8, int64(idx), func(g int, _ *mrand.Rand) string {
+				for i := 0; i < 300; i++ {
+					var v []byte
+					if (g+i)%2 == 0 {
+						v = mtp.LeftPad(tl.RandomInt128().Bytes(), 16)
+					} else {
+						v = mtp.LeftPad(tl.RandomInt256().Bytes(), 32)
+					}
+					vals[g] = append(vals[g], v)
+				}
+				return ""
+			})
+			draws := t.Snapshot()
+			served := map[string]bool{}
+			for _, d := range draws {
+				served[string(d.Bytes)] = true
+			}
+			seen := map[string]bool{}
+			bad := ""
+			for g := range vals {
+				for _, v := range vals[g] {
+					switch {
+					case !served[string(v)]:
+						bad = fmt.Sprintf("unexplained: a %d-byte nonce %x returned to goroutine %d is not a chunk the OS random source served (8 goroutines drawing at once)", len(v), v, g)
+					case seen[string(v)]:
+						bad = fmt.Sprintf("repeated: the nonce %x was handed out twice", v)
+					}
+					seen[string(v)] = true
+				}
+			}
+			for _, m := range res {
+				if m != "" {
+					bad = m
+				}
+			}
+			c.Count("evaluations", 8*300)
+			c.Count("concurrent.nonce_draws", 8*300)
+			if bad != "" {
+				c.Viol("C19", idx, "concurrent/nonce-"+strings.SplitN(bad, ":", 2)[0], bad, nil)
+			}
+			t.Reset()
+			c.Distinct("concurrent-draws", k)
 		}
 		idx++
 	}
@@ -176,6 +277,89 @@ func c19exchange(c *wk.Ctx, idx int, r *mrand.Rand, t *rngTee, reconnect bool) {
 	if idx < 2 {
 		c.Sample(map[string]interface{}{"sink_nonce": nonce, "sink_new_nonce": newNonce, "draws": drawsBrief(draws)})
 	}
+}
+
+// c19concurrent: n clients exchange keys at the same time; every nonce and new_nonce a server sees must be bytes the
+// OS source served, and no two of them may share an 8-byte run.
+func c19concurrent(c *wk.Ctx, idx int, r *mrand.Rand, t *rngTee, n int) {
+	worlds := make([]*world, n)
+	results := make([]string, n)
+	var wg sync.WaitGroup
+	for i := 0; i < n; i++ {
+		worlds[i] = newWorld(c, idx*100+i)
+		defer worlds[i].close()
+	}
+	for i := 0; i < n; i++ {
+		wg.Add(1)
+		go func(i int) {
+			defer wg.Done()
+			w := worlds[i]
+			srv := w.server(refserver.HandlerFunc(func(cn *refserver.Conn, in *mtp.Inner) {}))
+			m, err := w.client(srv.Addr, w.sessionPath("s"), srv)
+			if err != nil {
+				results[i] = "setup: " + err.Error()
+				return
+			}
+			var cerr error
+			if !withTimeout(60*time.Second, func() { wk.Guard(func() { cerr = m.CreateConnection() }) }) {
+				results[i] = "did not return"
+				return
+			}
+			defer safeDisconnect(m)
+			if cerr != nil {
+				results[i] = "error: " + wk.Short(cerr.Error(), 200)
+			}
+		}(i)
+	}
+	wg.Wait()
+	draws := t.Snapshot()
+	var secrets [][]byte
+	for i, w := range worlds {
+		// what reached the wire, whether or not the exchange completed
+		w.mu.Lock()
+		evs := append([]core.Event{}, w.evs...)
+		w.mu.Unlock()
+		for _, e := range evs {
+			var d map[string]interface{}
+			if e.Ev != "hs.req_pq" && e.Ev != "hs.done" {
+				continue
+			}
+			json.Unmarshal(e.Data, &d)
+			for _, f := range []string{"nonce", "new_nonce"} {
+				hx, _ := d[f].(string)
+				v, _ := hex.DecodeString(hx)
+				if len(v) == 0 || (e.Ev == "hs.done" && f == "nonce") {
+					continue
+				}
+				if ok, _ := explainedWindow(draws, v); !ok {
+					c.Viol("C19", idx, "concurrent/unexplained/"+f, fmt.Sprintf("%d key exchanges at once: the %s %x seen by server %d is not made of bytes the OS random source served", n, f, v, i), drawsBrief(draws))
+					return
+				}
+				if bytes.Equal(v, make([]byte, len(v))) {
+					c.Viol("C19", idx, "concurrent/zero/"+f, fmt.Sprintf("%d key exchanges at once: an all-zero %s reached server %d", n, f, i), nil)
+					return
+				}
+				secrets = append(secrets, v)
+			}
+		}
+		if results[i] != "" {
+			c.Count("concurrent.exchanges_not_completed", 1)
+			c.Note("concurrent_exchange_not_completed", results[i])
+		}
+	}
+	seen := map[string]int{}
+	for si, v := range secrets {
+		for o := 0; o+8 <= len(v); o++ {
+			k := string(v[o : o+8])
+			if prev, dup := seen[k]; dup && prev != si {
+				c.Viol("C19", idx, "concurrent/shared-bytes", fmt.Sprintf("%d key exchanges at once: two of the nonces that reached servers share the 8-byte run %x", n, v[o:o+8]), nil)
+				return
+			}
+			seen[k] = si
+		}
+	}
+	c.Count("concurrent.exchanges", int64(n))
+	c.Distinct("concurrent", n, len(secrets))
 }
 
 func drawsBrief(d []rngDraw) []string {
